@@ -109,6 +109,7 @@ def session_event(tid: str, cfg: Dict[str, Any], res: Dict[str, Any], kind: str,
     seats = res['seat_threads']
     done = {'verdict': res['verdict'], 'main_exc': res['main_exc'] is not None,
             'main_done': res['main_done'],
+            'seats_done_at_return': bool(res.get('seats_done_at_main_return', True)),
             'seats_done': all(t['done'] for t in seats),
             'seats_exc': any(t['exc'] for t in seats),
             'clients_exc': any(c['exc'] for c in clients),
@@ -170,6 +171,20 @@ def run_job(job) -> Dict[str, Any]:
         cfg['seed'] = cfg['seed'] + 1
     res = run_session(cfg)
     e = session_event(tid, cfg, res, kind, completed)
+    fault = cfg.get('fault')
+    if kind == 'abort' and fault:
+        # what the offender put on the wire must not have been passed on
+        off = next((c for c in res['conns'] if c['seat'] == fault['seat']), None)
+        sent = [t for (_, t) in off['c2s']] if off else []
+        legit = {w['sent'] for w in (off['wire'] if off else [])}
+        offence = [t for t in sent if ('plays' in t.lower() or 'bids' in t.lower() or 'passes' in t.lower()
+                                       or 'doubles' in t.lower() or 'frobnicates' in t.lower())
+                   and t not in legit]
+        e['offence'] = offence[-1] if offence else ''
+        e['s2c_all'] = [[t for (_, t) in c['s2c']] for c in res['conns'] if c['seat'] != fault['seat']]
+    if res.get('second') is not None:
+        e2 = session_event(tid + 'B', cfg['second'], res['second'], kind, completed)
+        e['second_event'] = e2
     if cfg.get('want_points'):
         e['info']['npoints'] = res.get('npoints')
     if kind == 'admission':
@@ -207,6 +222,17 @@ def normal_jobs(r, n: int, prefix: str, max_boards: int = 3) -> List[tuple]:
                'vary': k % 4 != 3, 'policy_spec': POLICIES[k % len(POLICIES)],
                'teams': (rand_id(r).strip() or 'a', rand_id(r).strip() or 'b'),
                'twice': k % 8 == 6}
+        if k % 9 == 4:
+            # team names outside ASCII
+            cfg['teams'] = (r.choice(['Équipe Zürich', '東京', 'Ünïcødé']) + rand_id(r).strip(),
+                            r.choice(['Łódź', 'Ελλάς', 'команда']) + rand_id(r).strip())
+        if k % 10 == 7:
+            # the other table of the match, alive in the same process
+            b2 = rand_boards(r, 1 + k % 2)
+            cfg['second'] = {'boards': b2, 'seed': r.randrange(1 << 30),
+                             'styles': [{'auction': 'weak' if k % 4 else 'short'}] * 4,
+                             'vary': False, 'policy_spec': cfg['policy_spec'],
+                             'teams': (rand_id(r).strip() or 'c', rand_id(r).strip() or 'd')}
         jobs.append((f'{prefix}{k}', cfg, 'normal', None))
     # a long session: twelve boards (two-digit board numbers), mostly passed out
     boards = rand_boards(r, 12)
@@ -520,7 +546,7 @@ def owners(clause: str, kind: str) -> set:
         if c.startswith('clients-complete') or c.startswith('client-stream') or c.startswith('replica-'):
             own |= {'C11'}
         if c.startswith('stream-'):
-            own |= {'C10'}
+            own |= {'C10', 'C13'} if kind == 'abort' else {'C10'}
         if c.startswith('log-'):
             own |= {'C13'} if kind == 'abort' else {'C08'}
             if c.startswith('log-present') or c.startswith('log-json'):
@@ -568,9 +594,12 @@ def run_into(chk: Check, pid: str, tier: str) -> None:
         jobs = admission_jobs(r, 100 if quick else 4000, 'q')
     else:
         jobs = normal_jobs(r, 64 if quick else 3000, 'n')
+        if pid == 'C10':
+            jobs += abort_jobs(r, 24 if quick else 600, 'a')     # nothing refused is passed on
         if pid == 'C08':
             jobs += schedule_jobs(r, 24 if quick else 600, 'k')
     events = pmap(run_job, jobs, chunk=2)
+    extra_events = [e.pop('second_event') for e in events if 'second_event' in e]
     for (tid, cfg, kind, comp), e in zip(jobs, events):
         chk.evaluations += 1
         nontrivial = any(d['cards'] for d in e['decs']) or kind != 'normal'
@@ -580,6 +609,8 @@ def run_into(chk: Check, pid: str, tier: str) -> None:
                                               e.get('requests')], sort_keys=True, default=str)))
         if not e['done']['paired_ok'] and kind == 'normal':
             chk.note(f'session {tid}: a decision was taken but never sent')
+    events = events + extra_events
+    chk.extra['two_table_sessions'] = len(extra_events)
     verd: Dict[str, int] = {}
     for e in events:
         verd[e['done']['verdict']] = verd.get(e['done']['verdict'], 0) + 1
